@@ -27,32 +27,6 @@ func VerifHmac(i int, key, msg []byte) []byte {
 	return mac.Sum(nil)
 }
 
-func VerifTruncate(sum []byte, mod uint64) uint32 { return truncate(sum, mod) }
-
-func VerifShortDigit(v uint32, digits int) string { return string([]byte(shortDigit(v, digits))) }
-
-func VerifLongDigit(v uint32, digits int) string { return longDigit(v, digits) }
-
-func VerifFormatDecimal(v uint32, digits int) string { return formatDecimal(v, digits) }
-
-func VerifPadBytes(in []byte, n int) []byte { return padBytes(in, n) }
-
-func VerifDeriveRFC4226(secret []byte, counter uint64, digits int, algo Algorithm) (string, error) {
-	return deriveRFC4226(secret, counter, digits, algo)
-}
-
-func VerifDeriveRFC6287(secret []byte, s Suite, in OCRAInput) (string, error) {
-	return deriveRFC6287(secret, s, in)
-}
-
-func VerifValidateRFC4226(code string, secret []byte, counter uint64, digits Digits, algo Algorithm) (bool, error) {
-	return validateRFC4226(code, secret, counter, digits, algo)
-}
-
-func VerifParseRawSuite(raw string) (SuiteConfig, error) { return parseRawSuite(raw) }
-
-func VerifChallengeLength(f ChallengeFormat) int { return challengeLength(f) }
-
 // VerifPools exposes the two buffer pools (for the adversary of the stress run).
 func VerifPools() (p4226, p6287 *sync.Pool) { return &rfc4226BufPool, &rfc6287BufPool }
 
